@@ -242,6 +242,21 @@ FitCurveClauses(C, V, nodes, D, err) ==
             <<"residual_orthogonal", nodes = <<>> => \A i \in 1..Len(mom) : IsZero(mom[i])>>,
             <<"interpolates_nodes", \A i \in DOMAIN nodes : Eval(D, nodes[i]) = Eval(C, nodes[i])>>})
 
+(* the same for 2-D control points: coordinates are fitted independently, the error is that of the worst one *)
+FitCurve2Clauses(C1, C2, V, nodes, D1, D2, err) ==
+  IF ~(ConsistentCurve(D1) /\ D1.U = V /\ ConsistentCurve(D2) /\ D2.U = V) THEN {"result_consistent"}
+  ELSE IF ~(SmallCurve(D1, 400) /\ SmallCurve(D2, 400) /\ Abs(err[1]) <= 100000 /\ err[2] <= 100000)
+  THEN {"?fit_clauses_numbers_too_large"}
+  ELSE
+  LET l1 == L2Sq(C1, D1) l2 == L2Sq(C2, D2)
+      m  == RMax(l1, l2)
+      m1 == ResidualMoments(C1, D1, V) m2 == ResidualMoments(C2, D2, V)
+  IN Fails({<<"err_nonneg", Sign(err) >= 0>>,
+            <<"err_is_multiple_of_worst_L2", err = m \/ err = Mul(Half, m)>>,
+            <<"residual_orthogonal", nodes = <<>> => \A i \in 1..Len(m1) : IsZero(m1[i]) /\ IsZero(m2[i])>>,
+            <<"interpolates_nodes", \A i \in DOMAIN nodes :
+                 Eval(D1, nodes[i]) = Eval(C1, nodes[i]) /\ Eval(D2, nodes[i]) = Eval(C2, nodes[i])>>})
+
 (* discrete least squares: B[k][i] = R_i(z_k); residual orthogonal to every column *)
 FitPointsClauses(V, W, nodes, data, D) ==
   IF ~(ConsistentCurve(D) /\ D.U = V /\ D.W = W) THEN {"result_consistent"}
